@@ -101,6 +101,8 @@ def flatten_case(els, tol, stratum):
                     return f'run of element {k} does not end exactly at the stored end point: {run[-1]}'
                 pts = [last] + list(el[1:])
                 verts = [(h2f(e[1]), h2f(e[2])) for e in run]
+                if any(math.isnan(c) or math.isinf(c) for vv in verts for c in vv):
+                    return f'element {k} ({kind}): non-finite vertex in the run {verts}'
                 v = check_run(pts, verts, tol, ext)
                 if v:
                     return f'element {k} ({kind}): ' + v
